@@ -1,45 +1,198 @@
 (* C10 -- I/O errors never cost acknowledged data.
-   The full statement is `fault_safety_stmt` of Wal/FaultHist.v (every history of
-   calls with an I/O error injected at any action of any call, restarts and
-   reopens).  It is evaluated on random histories of the model on every run and the
-   model is tied to the implementation by the `faults` stream; its proof is not
-   finished: below are the proved local consequences of an error on which it rests. *)
-From RW Require Import Base.Bytes Fmt.Codec Fmt.Frame Wal.Model Wal.Spec Wal.Hist Wal.FaultHist Wal.FaultFacts.
+
+   The statement is `fault_safety_stmt` of Wal/FaultHist.v, proved in full
+   (Wal/FaultThm.v): for every configuration and every history of calls in which
+   one I/O action of a call fails -- ANY action of ANY call: segment write, fsync,
+   file creation, metadata commit (StoreLogs incl. the reset of the empty first
+   segment, the background rotation a call waits for, DeleteRange head and tail
+   truncation incl. the forced seal, stable Set, Open incl. the completion of an
+   interrupted rotation); deletions are exempt, see Model.io -- with process
+   restarts and Close/Open cycles in between:
+     (a) readers of the running process always see exactly the state in which the
+         calls that returned nil are applied and those that returned an error are not;
+     (b) a call that returned nil was acceptable to the contiguous-log specification;
+     (c) after a restart / reopen the WAL opens (unless a fault was injected into that
+         very Open) and presents a member of `candidates alts defer`: each failed call
+         applied as a whole (in place, or -- for a failed StoreLogs whose complete
+         bytes sit behind the last commit of the tail file -- at restart time) or not
+         at all.
+   Proof architecture: lock-step simulation of the faulty run against the fault-free
+   run on a normalised disk (Wal/FaultSim*.v), which transfers the per-action-prefix
+   disk invariants of the crash development (Wal/Crash*.v) to the disk a failed call
+   leaves; an invariant FInv (Wal/FaultInv.v) over the process states reachable with
+   faults (stale unsynced batch behind a rolled-back writer; sealed but unrotated
+   tail; metadata ahead of a WAL that refuses writes; closed handle). *)
+From RW Require Import Base.Bytes Fmt.Codec Fmt.Frame Wal.Model Wal.Spec Wal.Hist Wal.FaultHist Wal.FaultFacts
+  Wal.FaultInv Wal.FaultThm Wal.FaultCor Wal.CrashExamples Wal.CrashExamplesFacts Wal.FaultExamples Wal.FaultExamplesFacts
+  Gen.Constants.
 Open Scope N_scope.
 
-Definition C10_full_statement : Prop := fault_safety_stmt.
+(* ------------------------------------------------------------------ *)
+(* the full statement                                                   *)
+Theorem C10_fault_safety : fault_safety_stmt.
+Proof. exact fault_safety. Qed.
+Print Assumptions C10_fault_safety.
 
-(* a failing action has no effect on the disk *)
-Theorem C10_failed_action_no_effect_partial :
+(* ------------------------------------------------------------------ *)
+(* plain-language corollaries.  [fault_hist_ok c steps] = cfg_ok c, every call
+   well-formed, fewer than 2^62 steps.  [fs_nom h] is the nominal state of the ghost
+   ledger: it changes only when a call returns nil (then by the specification's
+   transition) or at a restart/reopen (then to the state the recovery presents). *)
+
+(* while the WAL is open, readers see exactly the nominal state -- so every entry of a
+   StoreLogs that returned nil, not covered by a later successful DeleteRange, is
+   returned by GetLog, and nothing of a call that returned an error is *)
+Theorem C10_nominal_view :
+  forall c steps s0, fault_hist_ok c steps -> initial c = Some s0 ->
+    let h := fault_run c (fault_init s0) steps in
+    st_closed (ss_wal (fs_s h)) = false ->
+    observed (fs_s h) = fs_nom h /\
+    forall i, i < two64 ->
+      result_eqb (res_class (fst (get_log (ss_wal (fs_s h)) i (ss_env (fs_s h)))))
+                 (fst (step_spec (fs_nom h) (OGet i))) = true.
+Proof. exact nominal_view. Qed.
+Print Assumptions C10_nominal_view.
+
+(* after any such history, whatever fault is armed for it: if StoreLogs returns nil,
+   GetLog returns every one of its entries *)
+Theorem C10_acked_visible_in_process :
+  forall c steps s0 f ls l, fault_hist_ok c steps -> initial c = Some s0 -> sop_ok (OStore ls) ->
+    let h := fault_run c (fault_init s0) steps in
+    st_closed (ss_wal (fs_s h)) = false ->
+    let '(r, s1) := step_model c (with_fault (fs_s h) f) (OStore ls) in
+    r = ROk -> In l ls -> fst (get_log (ss_wal s1) (l_index l) (ss_env s1)) = RLog l.
+Proof. exact acked_visible_in_process. Qed.
+Print Assumptions C10_acked_visible_in_process.
+
+(* if StoreLogs returns an error, GetLog answers every index from the state before the
+   call: in particular none of its entries beyond the log is found *)
+Theorem C10_failed_store_invisible :
+  forall c steps s0 f ls i, fault_hist_ok c steps -> initial c = Some s0 -> sop_ok (OStore ls) ->
+    let h := fault_run c (fault_init s0) steps in
+    st_closed (ss_wal (fs_s h)) = false -> i < two64 ->
+    let '(r, s1) := step_model c (with_fault (fs_s h) f) (OStore ls) in
+    r <> ROk ->
+    result_eqb (res_class (fst (get_log (ss_wal s1) i (ss_env s1)))) (fst (step_spec (fs_nom h) (OGet i))) = true.
+Proof. exact failed_store_invisible. Qed.
+Print Assumptions C10_failed_store_invisible.
+
+Theorem C10_failed_store_not_found :
+  forall c steps s0 f ls l, fault_hist_ok c steps -> initial c = Some s0 -> sop_ok (OStore ls) ->
+    let h := fault_run c (fault_init s0) steps in
+    st_closed (ss_wal (fs_s h)) = false -> In l ls -> spec_get (sp_log (fs_nom h)) (l_index l) = None ->
+    let '(r, s1) := step_model c (with_fault (fs_s h) f) (OStore ls) in
+    r <> ROk -> fst (get_log (ss_wal s1) (l_index l) (ss_env s1)) = RErrNotFound.
+Proof. exact failed_store_not_found. Qed.
+Print Assumptions C10_failed_store_not_found.
+
+(* a restart after any such history opens the WAL, and what it presents (and what readers
+   then see) is a candidate: an alternative of the ledger -- every failed call applied in
+   full or not at all -- or such an alternative with one failed StoreLogs applied in full *)
+Theorem C10_reopen_applies_whole_or_nothing :
+  forall c steps s0, fault_hist_ok c steps -> initial c = Some s0 ->
+    let h := fault_run c (fault_init s0) steps in
+    let h' := fstep_run c h FRestart in
+    st_closed (ss_wal (fs_s h')) = false /\ fs_ok h' = true /\
+    In (fs_nom h') (candidates (fs_alts h) (fs_defer h)) /\ observed (fs_s h') = fs_nom h'.
+Proof. exact reopen_whole_or_nothing. Qed.
+Print Assumptions C10_reopen_applies_whole_or_nothing.
+
+Theorem C10_candidate_shape :
+  forall alts defer x, In x (candidates alts defer) ->
+    In x alts \/ exists a o, In a alts /\ In o defer /\ spec_accepts a o = Some x.
+Proof. exact cand_inv. Qed.
+Print Assumptions C10_candidate_shape.
+
+(* ------------------------------------------------------------------ *)
+(* the local consequences of an error on which the model's error paths rest *)
+Theorem C10_failed_action_no_effect :
   forall a e e', io a e = (false, e') -> e_disk e' = e_disk e.
 Proof. exact io_fail_no_effect. Qed.
-Print Assumptions C10_failed_action_no_effect_partial.
+Print Assumptions C10_failed_action_no_effect.
 
-(* entries of a failed StoreLogs are not visible: whatever fails inside the segment
-   append (write or fsync) the writer - in particular its commit index, which bounds
-   what readers may see - is exactly the one before the call *)
-Theorem C10_failed_append_rolls_back_partial :
+Theorem C10_failed_append_rolls_back :
   forall w ls e r w' e', seg_append w ls e = (r, w', e') -> r <> ROk -> w' = w.
 Proof. exact seg_append_error_rolls_back. Qed.
-Print Assumptions C10_failed_append_rolls_back_partial.
+Print Assumptions C10_failed_append_rolls_back.
 
-Theorem C10_failed_force_seal_rolls_back_partial :
+Theorem C10_failed_force_seal_rolls_back :
   forall w e r w' e', seg_force_seal w e = (r, w', e') -> r <> ROk -> w' = w.
 Proof. exact seg_force_seal_error_rolls_back. Qed.
-Print Assumptions C10_failed_force_seal_rolls_back_partial.
+Print Assumptions C10_failed_force_seal_rolls_back.
 
-(* a failed metadata commit publishes nothing *)
-Theorem C10_failed_commit_publishes_nothing_partial :
+Theorem C10_failed_commit_publishes_nothing :
   forall w t e e1,
     io (ACommit {| ps_next_id := tx_next_id t; ps_segs := tx_segs t |}) e = (false, e1) ->
     mutate w t e = (RErrIO, w, e1).
 Proof. exact mutate_commit_failure_publishes_nothing. Qed.
-Print Assumptions C10_failed_commit_publishes_nothing_partial.
+Print Assumptions C10_failed_commit_publishes_nothing.
 
-(* after a metadata update whose file creation failed the WAL refuses all writes
-   (so nothing can be acknowledged into a segment the metadata no longer lists) *)
-Theorem C10_failed_wal_refuses_writes_partial :
+Theorem C10_failed_wal_refuses_writes :
   forall c w ls e, st_closed w = false -> st_failed w = true -> ls <> [] ->
     store_logs c w ls e = (RErrFailed, w, e).
 Proof. exact failed_wal_refuses_store. Qed.
-Print Assumptions C10_failed_wal_refuses_writes_partial.
+Print Assumptions C10_failed_wal_refuses_writes.
+
+(* ------------------------------------------------------------------ *)
+(* non-vacuity: the hypotheses are satisfiable and the ledger is not trivial *)
+Example C10_ex_cfg : cfg_ok cfg256 /\ cfg_ok cfg128.
+Proof. exact (conj cfg256_ok cfg128_ok). Qed.
+
+(* A: fsync failure of a 2-entry append; the entries are invisible; a shorter batch with
+   another term is written at the same offset; after a restart exactly that batch is there *)
+Example C10_ex_fsync_then_shorter :
+  (ff_ok cfg256 fh_fsync_then_shorter, ff_last cfg256 (firstn 4 fh_fsync_then_shorter),
+   ff_last cfg256 fh_fsync_then_shorter, ff_term cfg256 fh_fsync_then_shorter 2, ff_term cfg256 fh_fsync_then_shorter 3)
+  = (true, 1, 2, Some 2, None).
+Proof. vm_compute. reflexivity. Qed.
+
+(* A': the same failed fsync followed by a restart: the failed StoreLogs is applied, as a
+   whole, at restart time (last index 1 before, 3 after) *)
+Example C10_ex_fsync_then_restart :
+  (ff_ok cfg256 fh_fsync_then_restart, ff_last cfg256 (firstn 3 fh_fsync_then_restart), ff_last cfg256 fh_fsync_then_restart)
+  = (true, 1, 3).
+Proof. vm_compute. reflexivity. Qed.
+
+(* B: the creation of the new tail fails after the metadata commit of a tail truncation:
+   the WAL is marked failed, the next StoreLogs is refused, readers still see 3 entries;
+   after a reopen the truncation is applied (2 entries) and index 3 can be rewritten *)
+Example C10_ex_trunc_create_fails :
+  (ff_ok cfg256 fh_trunc_create_fails, ff_flags cfg256 (firstn 2 fh_trunc_create_fails),
+   ff_result cfg256 (firstn 2 fh_trunc_create_fails) None (OStore [ex_log 4 1]),
+   ff_last cfg256 (firstn 5 fh_trunc_create_fails), ff_last cfg256 (firstn 7 fh_trunc_create_fails),
+   ff_term cfg256 fh_trunc_create_fails 3)
+  = (true, (true, false), RErrFailed, 3, 2, Some 5).
+Proof. vm_compute. reflexivity. Qed.
+
+(* C: the commit of the pending rotation fails: appends are refused (segment sealed) while a
+   head truncation still works; a restart completes the rotation *)
+Example C10_ex_rotation_commit_fails :
+  (ff_ok cfg128 fh_rotation_commit_fails,
+   ff_result cfg128 (firstn 3 fh_rotation_commit_fails) None (OStore [ex_log 3 1]),
+   ff_last cfg128 (firstn 5 fh_rotation_commit_fails),
+   ff_first cfg128 fh_rotation_commit_fails, ff_last cfg128 fh_rotation_commit_fails)
+  = (true, RErrSealed, 2, 2, 3).
+Proof. vm_compute. reflexivity. Qed.
+
+(* D: a fault inside Open: it fails, every call fails, the next Open succeeds *)
+Example C10_ex_fault_in_open :
+  (ff_ok cfg128 fh_fault_in_open, ff_flags cfg128 (firstn 3 fh_fault_in_open),
+   ff_result cfg128 (firstn 3 fh_fault_in_open) None OLast,
+   ff_last cfg128 fh_fault_in_open, ff_term cfg128 fh_fault_in_open 3)
+  = (true, (false, true), RErrClosed, 3, Some 1).
+Proof. vm_compute. reflexivity. Qed.
+
+(* E: a failed stable-store write and a head truncation whose commit fails change nothing *)
+Example C10_ex_misc :
+  (ff_ok cfg256 fh_misc, ff_first cfg256 fh_misc, ff_kv cfg256 fh_misc [107]) = (true, 1, [1]).
+Proof. vm_compute. reflexivity. Qed.
+
+(* the example histories satisfy the hypotheses of the theorem *)
+Example C10_ex_hyps :
+  fault_hist_ok cfg256 fh_fsync_then_shorter /\ fault_hist_ok cfg256 fh_fsync_then_restart /\
+  fault_hist_ok cfg256 fh_trunc_create_fails /\ fault_hist_ok cfg128 fh_rotation_commit_fails /\
+  fault_hist_ok cfg128 fh_fault_in_open /\ fault_hist_ok cfg256 fh_misc.
+Proof.
+  exact (conj fh_fsync_then_shorter_ok (conj fh_fsync_then_restart_ok (conj fh_trunc_create_fails_ok
+         (conj fh_rotation_commit_fails_ok (conj fh_fault_in_open_ok fh_misc_ok))))).
+Qed.
